@@ -1205,6 +1205,13 @@ class Context:
 
         plugins = self._get_plugins(targets, run_id, chunk_number=chunk_number)
 
+        # get_iter wraps several requested targets of the same kind in a temporary merge plugin.
+        # For the save policy (SaveWhen.TARGET) it is the wrapped data types that are the targets.
+        requested_targets = set(targets)
+        for target_i in targets:
+            if target_i.startswith(TEMP_DATA_TYPE_PREFIX):
+                requested_targets.update(plugins[target_i].depends_on)
+
         allow_superruns = [plugins[target_i].allow_superrun for target_i in targets]
         if is_superrun and sum(allow_superruns) not in [0, len(targets)]:
             raise ValueError(
@@ -1355,7 +1362,9 @@ class Context:
 
             # Now we should check whether we meet the saving requirements.
             current_plugin_to_savers = [target_i]
-            if not self._target_should_be_saved(target_plugin, target_i, targets, save):
+            if not self._target_should_be_saved(
+                target_plugin, target_i, requested_targets, save
+            ):
                 if target_plugin.multi_output:
                     # In case the plugin has more than a single provides we also have to check
                     # whether any of the other data_types should be stored. Hence only remove
@@ -1403,7 +1412,7 @@ class Context:
                     continue
 
                 if not self._target_should_be_saved(
-                    target_plugin, d_to_save, targets, save
+                    target_plugin, d_to_save, requested_targets, save
                 ) or savers.get(d_to_save):
                     # This multi-output plugin was scanned before
                     # let's not create doubled savers or store data_types we do not want to.
